@@ -31,7 +31,9 @@ AltVals == { Obj(<<"by", "ref">>, <<St(<<"n", "a", "m", "e">>), St(<<"a", "b">>)
              Obj(<<"by", "ref">>, <<St(<<"i", "d">>), St(<<"a", "b">>)>>),                \* satisfies none
              Obj(<<"by">>, <<St(<<"i", "d">>)>>) }                                       \* ref missing
 (* bodies for S5 / S6: an EMPTY string is a value, not an absent property *)
-EmptyVals == { Obj(<<"n", "s">>, <<N(4), St(<<>>)>>), Obj(<<"n", "s">>, <<N(4), St(<<"a">>)>>), Obj(<<"n">>, <<N(4)>>) }
+EmptyVals == { Obj(<<"n", "s">>, <<N(4), St(<<>>)>>), Obj(<<"n", "s">>, <<N(4), St(<<"a">>)>>), Obj(<<"n">>, <<N(4)>>),
+               \* ... and without a number next to it (multipart text parts are not typed: F-C06-2 would mask the verdict)
+               Obj(<<"s">>, <<St(<<>>)>>), Obj(<<"s">>, <<St(<<"a">>)>>), Obj(<<"ls", "s">>, <<Arr(<<St(<<"a">>)>>), St(<<>>)>>) }
 
 VARIABLE case
 Init ==
